@@ -55,7 +55,9 @@ using namespace cds_utils;
 #include "utils/LogSequence.h"
 #include "utils/VByte.h"
 
+#ifndef MEMALLOC
 #define MEMALLOC 32768
+#endif
 
 class StringDictionaryPFC : public StringDictionary {
 public:
